@@ -86,7 +86,7 @@ impl Check for C07 {
         vec![GenSpec { name: "fair", quick: 15_000, thorough: 1_000_000 }]
     }
     fn rule(&self) -> &'static str {
-        "Disjunctions of 2-4 branches built with conde, match (wildcard arms) or matche, at top level, after a conjunction prefix with 1-2 answers, or nested as a branch of another disjunction (depth 2). Branches: infinite producers (loop { q == c }, [always(), q == c], a recursive closure generating lists through a fresh variable, append with fresh arguments, loop over member), silent divergers (never(), [never(), q == c], a left-recursive closure, a closure that only calls itself, a closure that recurses through a fresh block) and finite goals (q == c, member over 2-7 elements, the literal false alone or at the end of a conjunction, which folds the branch to a static Fail), in every position. Bounded-progress oracle in engine steps (hook H1, logical time): every branch is first run alone from the same prefix; if it yields its j-th answer (j <= 3) within s <= 6000 engine steps, the whole disjunction must yield that answer (as a multiset over all branches, tuples up to renaming) within F = 64 * 2^(k*d) * (s_max + 16) engine steps, k = number of branches, d = nesting depth. Distinct = distinct program text; non-trivial = at least one branch with an obligation AND at least one infinite or diverging sibling."
+        "Disjunctions of 2-4 branches built with conde, match (wildcard arms) or matche, at top level, after a conjunction prefix with 1-2 answers, or nested as a branch of another disjunction (depth 2). Branches: infinite producers (loop { q == c }, [always(), q == c], a recursive closure generating lists through a fresh variable, append with fresh arguments, loop over member), silent divergers (never(), [never(), q == c], a left-recursive closure, a closure that only calls itself, a closure that recurses through a fresh block) and finite goals (q == c, member over 2-7 elements, the literal false alone or at the end of a conjunction, which folds the branch to a static Fail), in every position. Bounded-progress oracle in engine steps (hook H1, logical time): every branch is first run alone from the same prefix; if it yields its j-th answer (j <= 3) within s <= 6000 engine steps, the whole disjunction must yield that answer (as a multiset over all branches, tuples up to renaming) within F = min(10^6, 64 * 2^(k*d) * (s_max + 16)) engine steps, k = number of branches, d = nesting depth. Distinct = distinct program text; non-trivial = at least one branch with an obligation AND at least one infinite or diverging sibling."
     }
     fn assumptions(&self) -> Vec<String> {
         vec![
@@ -180,7 +180,9 @@ impl Check for C07 {
             out.count("no_obligation", 1);
             return out;
         }
-        let f = 64u64 * (1u64 << (k * d).min(20)) * (s_max + 16);
+        // capped at 10^6 steps: three orders of magnitude above what the unchanged engine needs for
+        // any generated case, and it keeps a run against a starving engine from taking hours
+        let f = (64u64 * (1u64 << (k * d).min(20)) * (s_max + 16)).min(1_000_000);
         awaited.sort();
         let mut remaining = awaited.clone();
         let mut produced = 0u64;
